@@ -27,15 +27,20 @@ const PARAMETERS: &[Parameter] = &[
     ),
 ];
 
+/// The largest number of decimal places that is rendered.
+const MAX_SCALE: i64 = 255;
+
 fn format_number(
     value: Value,
     scale: Option<Value>,
     grouping_separator: Option<Value>,
     decimal_separator: Value,
 ) -> Resolved {
-    let value: Decimal = match value {
-        Value::Integer(v) => v.into(),
-        Value::Float(v) => Decimal::from_f64(*v).expect("not NaN"),
+    let value: String = match value {
+        Value::Integer(v) => Decimal::from(v).to_string(),
+        // `Decimal` covers roughly +/-7.9e28. Larger (or infinite) floats cannot be converted:
+        // fall back to the float's own positional rendering instead of panicking.
+        Value::Float(v) => Decimal::from_f64(*v).map_or_else(|| v.to_string(), |d| d.to_string()),
         value => {
             return Err(ValueError::Expected {
                 got: value.kind(),
@@ -45,7 +50,9 @@ fn format_number(
         }
     };
     let scale = match scale {
-        Some(expr) => Some(expr.try_integer()?),
+        // The scale is a number of decimal places: a negative value used to be cast to `usize`,
+        // which made the padding loop below run (and allocate) practically forever.
+        Some(expr) => Some(expr.try_integer()?.clamp(0, MAX_SCALE)),
         None => None,
     };
     let grouping_separator = match grouping_separator {
@@ -55,7 +62,6 @@ fn format_number(
     let decimal_separator = decimal_separator.try_bytes()?;
     // Split integral and fractional part of float.
     let mut parts = value
-        .to_string()
         .split('.')
         .map(ToOwned::to_owned)
         .collect::<Vec<String>>();
